@@ -71,7 +71,8 @@ def gen(rng, k):
         pts = zero + idx @ np.array([a, b]) + rng.normal(0, 0.5, (n, 2))
         w = np.concatenate([[100.0, 100.0], 10 ** rng.uniform(-20, -15, n - 2)])
         return {"idx": idx, "pts": pts, "w": w, "exact": True}
-    return {"idx": idx, "pts": pts, "w": w, "int_pts": k % 9 == 4}
+    return {"idx": idx, "pts": pts, "w": w, "int_pts": k % 9 == 4,
+            "matcher": [None, {"min_match": 10 * n + 7}, {"tolerance": 1e-3}, None, {"min_weight": 1e6}, {"min_match": n + 1}][(k // 3) % 6]}
 
 
 def exact_wls(idx, pts, w):
@@ -151,7 +152,10 @@ def run_case(kind, p):
     idx, pts, w = (np.asarray(p[k], dtype=np.float64) for k in ("idx", "pts", "w"))
     rng = np.random.default_rng(p.get("seed", 0))
     msgs = []
-    M = grm.Matcher()
+    # the affine match fits ALL given points whatever the matcher was configured for (its tolerance, minimum weight and minimum
+    # number of matches belong to the fast match)
+    cfg = p.get("matcher") or {}
+    M = grm.Matcher(**cfg)
     if p.get("int_pts"):
         # positions kept as integer pixel positions (integer dtype) by the caller; the indices may be fractional
         pts = np.round(pts)
